@@ -6,6 +6,9 @@ from ..core import rule
 from ..program import AnalysisError
 from ..effects import STORAGES, NODEC, HDRC, TRIE_NODE, recv_name
 
+# memoising decorators do not change which function a call reaches; R-NO-STALE-CACHE decides them
+MEMO_DECORATORS = ('lru_cache', 'cache', 'cached_property', 'memoize', 'memoized')
+
 DYNAMIC_NAMES = {'getattr', 'setattr', 'delattr', 'eval', 'exec', 'globals', 'locals', 'vars', '__import__',
                  'compile'}
 
@@ -32,7 +35,8 @@ def static_shape(ctx, rr):
                 for m in x.body:
                     if isinstance(m, ast.FunctionDef) and m.name in ('__getattr__', '__getattribute__', '__setattr__'):
                         problems.append('%s:%d %s.%s defined' % (path, m.lineno, x.name, m.name))
-            if isinstance(x, ast.FunctionDef) and [d for d in x.decorator_list if not (isinstance(d, ast.Name) and d.id == 'staticmethod')]:
+            if isinstance(x, ast.FunctionDef) and [d for d in x.decorator_list if not (isinstance(d, ast.Name) and d.id == 'staticmethod')
+                                                   and ast.unparse(d.func if isinstance(d, ast.Call) else d).split('.')[-1] not in MEMO_DECORATORS]:
                 problems.append('%s:%d decorated function %s' % (path, x.lineno, x.name))
             if isinstance(x, ast.Attribute) and x.attr == '__dict__' and isinstance(x.ctx, (ast.Load, ast.Store)):
                 problems.append('%s:%d __dict__ access' % (path, x.lineno))
